@@ -75,8 +75,10 @@ func (x *executor) layoutFacts(store bs.DataStore, f bs.MaybeFile, fo *FileObs) 
 		if n != blk.Rows {
 			fo.BlocksTrue = false
 		}
-		if blk.Compression == "" {
-			fo.BlocksTrue = false // every block is written with an explicit compression type
+		if blk.Compression == "" && !x.legacy {
+			// every block is written with an explicit compression type - unless the block was copied by a merge from
+			// metadata that said "" (the legacy_meta dimension), which readers treat as uncompressed
+			fo.BlocksTrue = false
 		}
 		if i < len(f.Metadata.DataBlocks) {
 			m := f.Metadata.DataBlocks[i]
